@@ -102,4 +102,22 @@ CHECKS = {
                          'the equivalence "LALR automaton = operator-precedence parser on all strings" is not proved: it rests on the state-table validation and the exhaustive pair/triple/mix run'],
         'assumptions': ['documented ladder = docs/reference/operators.md order, transcribed in Syntax/Table.lean', 'call f(x) and index a[0] apply to a unit expression (grammar structure), so they are atoms for the precedence parser'],
     },
+    'C16': {
+        'lean_modules': ['Pangaea.Theorems.C16'],
+        'theorem_modules': ['Pangaea.Theorems.C16'],
+        'generated_by_harness': ['C16'],
+        'theorems': ['Pangaea.C16.readAll_chunks', 'Pangaea.C16.readAll_any_two_chunkings', 'Pangaea.C16.ret_run', 'Pangaea.C16.multiline_run',
+                     'Pangaea.C16.comment_any_length', 'Pangaea.C16.dq_any_length', 'Pangaea.C16.bq_any_length', 'Pangaea.C16.ident_any_length',
+                     'Pangaea.C16.regexes_are_the_transcribed_ones'],
+        'harness': ['C16'],
+        'shards': 14,
+        'spec_is_function': True,
+        'rule': '(1) Lean matchers vs the lexer\'s own regular expressions (obtained through the verif hook) on random strings over token-specific alphabets for RET, MULTILINE_*_CHAIN, "..." , `...`, IDENT; '
+                '(2) string / raw string / comment / identifier / symbol tokens of 0-3, 1020-1030, 2040-2056, 3070-3080, 8192 (16384, 70000 thorough) characters must be lexed as one token with their full text; '
+                '(3) real programs (tests/*.pangaea, native/*.pangaea sample + two dense templates): every line break replaced by padding of 5 kinds x the same sizes, and 22 reader chunkings incl. 1-byte, '
+                'zero-length reads and data+EOF: ast String() must equal the original. non-trivial = size > 3 / a match / any chunking; distinct by case text',
+        'trusted_base': [KERNEL, AX, TIE, 'matchers in Pangaea/Syntax/Lexer.lean are hand transcriptions of the token regexes; the regex strings are regenerated through parser.VerifTokenTypes() and compared by decide',
+                         'Go regexp semantics (leftmost-first) is mirrored by the matchers, checked only by the differential run', 'io.ReadAll semantics'],
+        'assumptions': ['only the layout tokens, strings, raw strings, comments and identifiers are modelled; the rest of the token table and the LALR parser are exercised by the padded/chunked real programs'],
+    },
 }
